@@ -516,10 +516,63 @@ class GenSource:
         ops.append({"op": "set", "obj": o.k, "path": [], "value": {"obj": sid}, "via": via})
         return ops
 
+    def _resplit_scenario(self, w):
+        """A struct nested by value in a live object, with two dynamic 1-D arrays of numbers of
+        different lengths: an object of the part's class with the lengths exchanged (same total size,
+        another split) is built and assigned to the nested field through ANOTHER handle of the holder
+        (a view rebuilt from the bytes) while the kept handle - which has read the part before - stays
+        in use.  The holder's own layout does not change, so none of its handles may go stale."""
+        rng = self.rng
+        sc = w.schema
+        cands = []
+        for o in w.live_objs():
+            if sc[o.t]["k"] not in ("struct", "array"):
+                continue
+            for p, t, n in M.enum_paths(sc, o.t, o.node, maxn=60, through_refs=False):
+                if not p or "*" in p or sc[t]["k"] != "struct" or typegen.has_refs(sc, t):
+                    continue
+                dyn = []
+                for f in sc[t]["fields"]:
+                    ft = sc[f[1]]
+                    if ft["k"] == "array" and len(ft["shape"]) == 1 and ft["shape"][0] is None and sc[ft["item"]]["k"] == "sc":
+                        dyn.append((f[0], typegen.SC_SIZE[sc[ft["item"]]["t"]], len(n.f[f[0]].items)))
+                pairs = [(a, b) for a in dyn for b in dyn if a[0] < b[0] and a[1] == b[1] and a[2] != b[2] and (a[2] * a[1]) % 8 == (b[2] * b[1]) % 8]
+                if pairs:
+                    cands.append((o, p, t, n, pairs))
+        if not cands:
+            return None
+        o, p, t, n, pairs = rng.choice(cands)
+        a, b = rng.choice(pairs)
+        newlen = {a[0]: b[2], b[0]: a[2]}
+        d = {}
+        for f in sc[t]["fields"]:
+            if f[0] in newlen:
+                it = sc[sc[f[1]]["item"]]["t"]
+                d[f[0]] = {"l": [M.gen_scalar(rng, it) for _ in range(newlen[f[0]])], "shape": [newlen[f[0]]]}
+            else:
+                v = self._same_shape_value(w, f[1], n.f[f[0]])
+                if v is None:
+                    return None
+                d[f[0]] = v
+        nid = self.new_id()
+        ops = [{"op": "construct", "type": t, "value": {"d": d}, "place": {"buf": o.bufid if rng.random() < 0.7 else pick_buf(w, rng), "how": "default"}, "form": "single", "id": nid}]
+        ops.append({"op": "set", "obj": o.k, "path": p, "value": {"obj": nid}, "via": "view" if rng.random() < 0.7 else self._via(o)})
+        # ... and a leaf of the part is then written through the kept handle (where a stale cached view would misplace it)
+        leaf = [f for f in sc[t]["fields"] if f[0] in newlen and newlen[f[0]] > 0]
+        if leaf:
+            f = rng.choice(leaf)
+            ops.append({"op": "set", "obj": o.k, "path": list(p) + [f[0], [newlen[f[0]] - 1]], "value": M.gen_scalar(rng, sc[sc[f[1]]["item"]]["t"]), "via": "handle" if o.hnd is not None else "view"})
+        return ops
+
     def set_compound(self, w):
         rng = self.rng
         if rng.random() < 0.08 and not getattr(self, "pending", None):
             sc_ = self._slots_scenario(w)
+            if sc_:
+                self.pending = sc_[1:]
+                return sc_[0]
+        if rng.random() < 0.15 and not getattr(self, "pending", None):
+            sc_ = self._resplit_scenario(w)
             if sc_:
                 self.pending = sc_[1:]
                 return sc_[0]
@@ -1547,7 +1600,7 @@ class Step:
                         if M.same(M.snapshot(w.schema, o.t, o.node), gotv):
                             # (a dressed object whose attributes stop reflecting its buffer during a
                             # hybrid operation is C18's own subject)
-                            self.viol("C20" if getattr(o.buf, "_sim_restored", False) else "C18" if kind.startswith("h_") and getattr(o, "dressed", None) is not None else "C06", "kept_handle_stale_view_agrees_with_model", [kind, "written_through_" + str(self.op.get("via", "-")), typegen.features(w.schema, o.t)], f"object {o.k}: reading the kept handle raised {type(e).__name__}: {e} (model == rebuilt view); after {str(self.op)[:300]}")
+                            self.viol("C20" if getattr(o.buf, "_sim_restored", False) else "C18" if kind.startswith("h_") and getattr(o, "dressed", None) is not None else "C06", "kept_handle_stale_view_agrees_with_model", [kind, "written_through_" + str(self.op.get("via", "-")), typegen.features(w.schema, o.t), "nested" if self.op.get("path") else "whole"], f"object {o.k}: reading the kept handle raised {type(e).__name__}: {e} (model == rebuilt view); after {str(self.op)[:300]}")
                             continue
                     except Exception:
                         pass
@@ -1565,7 +1618,7 @@ class Step:
                     # (a bulk view — to_nplike / to_nparray — that disagrees with item access on the same
                     # handle is re-checked only under the construction and restart lenses: theirs)
                     sprop = "C20" if getattr(o.buf, "_sim_restored", False) else self.lens if self.lens in ("C01", "C20") and "badnplike" in repr(got) else "C06"
-                    self.viol(sprop, "kept_handle_stale_view_agrees_with_model", [kind, "written_through_" + str(self.op.get("via", "-")), typegen.features(w.schema, o.t)], f"object {o.k}: {M.first_diff(want, got)} (model == rebuilt view, kept handle differs); after {str(self.op)[:300]}")
+                    self.viol(sprop, "kept_handle_stale_view_agrees_with_model", [kind, "written_through_" + str(self.op.get("via", "-")), typegen.features(w.schema, o.t), "nested" if self.op.get("path") else "whole"], f"object {o.k}: {M.first_diff(want, got)} (model == rebuilt view, kept handle differs); after {str(self.op)[:300]}")
                     continue
             if not M.same(want, got):
                 d = M.first_diff(want, got)
